@@ -10,5 +10,6 @@ import BigtoolsModel.AtomsBSUM
 import BigtoolsModel.AtomsST
 import BigtoolsModel.AtomsZL
 import BigtoolsModel.AtomsRB
+import BigtoolsModel.AtomsTB
 /-! Umbrella: the obligations on the expressions regenerated from the Rust source, one module per group (`Atoms*.lean`), so that a
     property depends only on the groups its theorems use. -/
